@@ -49,7 +49,7 @@ import numpy as np
 import core
 
 LEAN_MODULE = "Optyx.Props.C14"
-EXTRA_MODULES = ["Optyx.Props.PinsC14", "Optyx.Props.StateTie", "Optyx.Props.BuildTie", "Optyx.Props.VarsStepTie", "Optyx.Props.DegreeEntryTie", "Optyx.Props.SpineTie", "Optyx.Props.CompileEntryTie", "Optyx.Props.ParamTie", "Optyx.Props.ScaledTie"]   # transcription anchors (harness/source_pins.py)
+EXTRA_MODULES = ["Optyx.Props.PinsC14", "Optyx.Props.StateTie", "Optyx.Props.BuildTie", "Optyx.Props.VarsStepTie", "Optyx.Props.DegreeEntryTie", "Optyx.Props.SpineTie", "Optyx.Props.CompileEntryTie", "Optyx.Props.ParamTie", "Optyx.Props.ScaledTie", "Optyx.Props.ConstraintTie"]   # transcription anchors (harness/source_pins.py)
 THEOREMS = [
     "Optyx.Props.C14.cache_transparent",
     "Optyx.Props.C14.cache_transparent_run",
@@ -91,6 +91,7 @@ THEOREMS = [
     "Optyx.Props.ScaledTie.scaledEntry_eq",
     "Optyx.Props.ScaledTie.scaledLoop_step",
     "Optyx.Props.ScaledTie.scaledPattern_frame",
+    "Optyx.Props.ConstraintTie.getVariables_text",
     "Optyx.Props.PinsC14.anchors",
 ]
 ASSUMPTIONS = [
